@@ -64,6 +64,7 @@ type replayFile struct {
 
 func main() {
 	ir.ReferenceKeys = norm.Reference()
+	ir.ReferenceArity = eng.ReferenceArities()
 	flag.Parse()
 	tier := *flagTier
 	if tier == "" {
